@@ -165,6 +165,18 @@ impl<'a, T: Flt> Ck<'a, T> {
                 return;
             }
         }
+        // written digits (zero padding included) stay within max, except for what an integral
+        // part and the single mandatory fraction digit need
+        if let Some(max) = wo.max {
+            let written = written_digits(&x1);
+            let lead = x1.digits.iter().take_while(|&&c| c == b'0').count();
+            let int_len = (x1.digits.len() - x1.frac_len).saturating_sub(lead);
+            let mandatory = if int_len > 0 && x1.frac_len > 0 { int_len + 1 } else { int_len };
+            if written > max.max(mandatory) {
+                fail(self, &format!("{} digits written (zero padding included), max_significant_digits={}", written, max));
+                return;
+            }
+        }
         // trimmed as an integer?
         let frac_zero = x1.digits[x1.digits.len() - x1.frac_len..].iter().all(|&c| c == b'0');
         let trimmed_int = wo.trim && !x1.has_point;
@@ -241,7 +253,7 @@ fn values<T: Flt>(thorough: bool) -> Vec<u64> {
     }
     // carry values: 9.99.., 0.0999.., 99999.5 patterns at every length
     for n in 1..=17usize {
-        for s in [format!("9.{}", "9".repeat(n)), format!("0.0{}", "9".repeat(n)), format!("{}.5", "9".repeat(n)), format!("{}5", "9".repeat(n)), format!("1.{}5", "0".repeat(n)), format!("{}e20", "9".repeat(n)), format!("0.{}15", "0".repeat(n)), format!("2.{}5", "5".repeat(n))] {
+        for s in [format!("9.{}", "9".repeat(n)), format!("0.0{}", "9".repeat(n)), format!("0.{}6", "9".repeat(n)), format!("0.00{}6", "9".repeat(n)), format!("{}.5", "9".repeat(n)), format!("{}5", "9".repeat(n)), format!("1.{}5", "0".repeat(n)), format!("{}e20", "9".repeat(n)), format!("0.{}15", "0".repeat(n)), format!("2.{}5", "5".repeat(n))] {
             if let Some(b) = T::std_parse(&s) {
                 if f.is_finite(b) {
                     v.push(b);
